@@ -690,7 +690,12 @@ class EmbeddedObjectProperty(Property):
 
     def clean(self, value, allow_custom, interoperability=False):
         if isinstance(value, dict):
-            value = self.type(allow_custom=allow_custom, **value)
+            # (both options are passed on, like everywhere else: a key of
+            # that name in the content is then a clash, not an instruction)
+            value = self.type(
+                allow_custom=allow_custom, interoperability=interoperability,
+                **value
+            )
         elif not isinstance(value, self.type):
             raise ValueError("must be of type {}.".format(self.type.__name__))
 
